@@ -52,6 +52,10 @@ KindOfFork(i) ==
     [] i = 16 -> Cancun
     [] OTHER  -> Prague
 
+(* types.LatestSigner: the most permissive signer for a configuration whose last scheduled  *)
+(* fork is i - never the Frontier rule                                                      *)
+LatestKindOfFork(i) == IF KindOfFork(i) = Frontier THEN Homestead ELSE KindOfFork(i)
+
 (* ------------------------------ signed transactions -------------------------------- *)
 (* tx = [type, chain, vk, vchain, par, hash, r, s]                                        *)
 (*  chain  : chain-id field of a typed payload (-1 for legacy)                            *)
